@@ -9,7 +9,7 @@ CONSTANTS
   MaxAnns = 1
   ScalarKinds <- KindsPair
   WktAtoms <- WktPair
-  Cards <- CardsAnn
+  Cards <- CardsTwo
   MapKeys <- KeysString
   OneofSels <- SelsNone
   OneofOpts <- OneofOptsNone
